@@ -132,7 +132,9 @@ func TestEncodeRoundTrip(t *testing.T) {
 	h.Run(t, h.Sub[bytesCase]{
 		Prop: "C14", Name: "encode-roundtrip", N: 20000,
 		Gen: func(t *rapid.T) bytesCase {
-			switch h.Pick(t, "k", 6, 1, 1) {
+			switch h.Pick(t, "k", 6, 1, 1, 1) {
+			case 3: // long inputs
+				return bytesCase{Data: h.BytesN(t, "long", h.OneOf(t, "ll", 255, 256, 257, 1000, 4096, 5000))}
 			case 1:
 				n := rapid.IntRange(0, 200).Draw(t, "n")
 				return bytesCase{Data: bytes.Repeat([]byte{h.OneOf(t, "b", byte(0), 0x7f, 0x80, 0xff, 0x01)}, n)}
